@@ -52,6 +52,9 @@ def build(c):
     else:
         b = sc.array(dims=['slit'], values=[fl(x) for x in c['begin']], unit=c['aunit'], dtype='float64')
         e = sc.array(dims=['slit'], values=[fl(x) for x in c['end']], unit=c['aunit'], dtype='float64')
+    if c.get('layout') == 'scalar' and len(c['begin']) == 1:
+        # a single slit given as 0-d variables
+        b, e = b['slit', 0].copy(), e['slit', 0].copy()
     return DiskChopper(
         axle_position=sc.vector([0.0, 0.0, 2.0], unit='m'),
         frequency=freq(c['f'], c['funit'], c.get('fdtype', 'float64')),
